@@ -9,9 +9,10 @@ sys.path.insert(0, os.path.join(os.path.dirname(os.path.abspath(__file__)), ".."
 import vf
 
 UV_EOF, UV_ENOBUFS = -4095, -105
-KNOWN_IPC = "ipc_premature_eof_after_fd_message"
-KNOWN_NONIPC = "pipe_premature_eof_after_fd_message_nonipc"
-HARNESS_ONLY = "WGHQUKM"
+# keys of the two defects repaired by /repo commit 34f0ffa (kept only to name a regression)
+FIXED_IPC = "ipc_premature_eof_after_fd_message"
+FIXED_NONIPC = "pipe_premature_eof_after_fd_message_nonipc"
+HARNESS_ONLY = "WGHQUKMB"
 
 
 # --------------------------------------------------------------------------
@@ -72,7 +73,7 @@ def gen_case(rng, tcp=False):
         if r < 0.90:
             peer_open = False
             return "q"
-        if r < 0.93 and not tcp:
+        if r < (0.99 if tcp else 0.93):     # on tcp this is the only way to a real POLLHUP (reset)
             return "u%d" % rng.choice([1, 3])
         return "w%d" % wsize()
 
@@ -155,7 +156,7 @@ def gen_case(rng, tcp=False):
 
 
 FIXED = [
-    # item 20: "A" + descriptor, "BBBB", close -> "A", UV_EOF; the rest only after a restart
+    # item 20 (repaired by 34f0ffa): "A" + descriptor, "BBBB", close -> was "A", UV_EOF; now all data, EOF
     "1 ; S1 g1 w4 q R R S2 R R ; ; 65536 ; ",
     # the same on a pipe opened without ipc (read(2) also stops behind a descriptor-carrying message)
     "0 ; S1 g1 w4 q R R S2 R R ; ; 65536 ; ",
@@ -189,11 +190,20 @@ FIXED = [
 ]
 
 
+# tcp keeps the POLLHUP short-cut; a real POLLHUP needs a reset: the peer closes with unread data
+TCP_FIXED = [
+    "0 ; S1 u3 w40 q R R R R ; ; 7 ; ",
+    "0 ; S1 u1 w7 q R R R ; ; 7 ; ",
+    "0 ; S1 u1 w6 q R R R ; ; 7 ; ",
+    "0 ; S1 u3 w64 q R R R R ; ; 2 ; ",
+]
+
+
 # --------------------------------------------------------------------------
 # monitor: the property on the implementation's own trace
 # --------------------------------------------------------------------------
-def monitor(case, line, ipc):
-    """None, or (key, reason); key is None unless the reason is a catalogued defect"""
+def monitor(case, line, ipc, tcp=False):
+    """None, or (None, reason) when the implementation's own trace violates the property"""
     if line.rstrip().endswith("HANG"):
         return (None, "the loop never came back: " + line[-200:])
     if line.startswith("DIED"):
@@ -207,9 +217,12 @@ def monitor(case, line, ipc):
     pend_m = pend_k = False
     last_k = None
     fd_msgs = []
-    known = None
+    inbox = reset = False
+    eof_ctx = None
     for ev in trace:
         k, a = ev[0], ev[1:]
+        if k != "B" and k != "r":
+            eof_ctx = None
         if k == "W":
             written = int(a)
         elif k == "G":
@@ -217,8 +230,30 @@ def monitor(case, line, ipc):
             # read/recvmsg stops behind the segment that carried them
             fd_msgs.append((written, int(a)))
             written = int(a)
-        elif k in "HQU":
+        elif k == "H":
             pass
+        elif k == "U":
+            inbox = True
+        elif k == "Q":
+            # tcp: closing with unread data resets the connection and discards what was not yet
+            # transmitted, so "what the peer wrote" no longer bounds what can arrive
+            if tcp and inbox:
+                reset = True
+        elif k == "B":
+            # n bytes were still readable when the UV_EOF callback just before ran
+            if eof_ctx is not None:
+                ebuf, ehonest, ek = eof_ctx
+                if ebuf != "-":
+                    return (None, "UV_EOF from a read that returned 0, yet %s bytes were readable" % a)
+                if ek is None or not ek["short"]:
+                    return (None, "UV_EOF reported with %s bytes still readable and without a short read "
+                                  "before it" % a)
+                if ehonest and not ek["capped"]:
+                    if any(lo < ek["end"] <= hi for lo, hi in fd_msgs):
+                        return (None, "UV_EOF reported with %s bytes still buffered behind a descriptor-"
+                                      "carrying message (POLLHUP + short read): regression of fixed "
+                                      "finding %s" % (a, FIXED_IPC if ipc else FIXED_NONIPC))
+                    return (None, "UV_EOF reported with %s bytes still readable" % a)
         elif k == "M":
             pend_m = True
         elif k == "K":
@@ -281,7 +316,8 @@ def monitor(case, line, ipc):
                 if delivered > written:
                     return (None, "more bytes delivered than the peer wrote")
             elif nread == UV_EOF:
-                if delivered < written:
+                eof_ctx = (buf, hup_honest, dict(last_k) if last_k else None)
+                if delivered < written and not reset:
                     missing = written - delivered
                     if buf != "-":
                         return (None, "UV_EOF with %d bytes undelivered (read returned 0?)" % missing)
@@ -291,11 +327,10 @@ def monitor(case, line, ipc):
                     injected = (not hup_honest) or last_k["capped"]
                     if not injected:
                         if any(lo < last_k["end"] <= hi for lo, hi in fd_msgs):
-                            known = (KNOWN_IPC if ipc else KNOWN_NONIPC,
-                                     "UV_EOF reported with %d bytes still buffered behind a descriptor-carrying "
-                                     "message (POLLHUP + short read)" % missing)
-                        else:
-                            return (None, "UV_EOF reported with %d bytes undelivered" % missing)
+                            return (None, "UV_EOF reported with %d bytes still buffered behind a descriptor-"
+                                          "carrying message (POLLHUP + short read): regression of fixed "
+                                          "finding %s" % (missing, FIXED_IPC if ipc else FIXED_NONIPC))
+                        return (None, "UV_EOF reported with %d bytes undelivered" % missing)
                 quiet, why = True, "after UV_EOF"
             elif nread in (-4, -11):
                 return (None, "EINTR/EAGAIN of read/recvmsg surfaced in the read callback as error %d" % nread)
@@ -307,7 +342,7 @@ def monitor(case, line, ipc):
         return (None, "buffer %d was never handed to a read callback" % out[0])
     if ksum != delivered:
         return (None, "the kernel handed out %d bytes, %d were delivered" % (ksum, delivered))
-    return known
+    return None
 
 
 # --------------------------------------------------------------------------
@@ -329,8 +364,8 @@ def model_input(case, impl_line, tcp):
             pi += 1
     if pi != len(polls):
         return None
-    ipc = "0" if tcp else c[0].strip()
-    return "%s ; %s ;%s;%s; %s" % (ipc, " ".join(ops), c[2], c[3], parts[1].strip())
+    hdr = "0 0" if tcp else "1 " + c[0].strip()
+    return "%s ; %s ;%s;%s; %s" % (hdr, " ".join(ops), c[2], c[3], parts[1].strip())
 
 
 def strip_harness_tokens(trace):
@@ -370,7 +405,18 @@ def run_mode(chk, name, harness_cmd, model, cases, tcp=False):
         chk.violation("%s: harness produced %d lines for %d cases" % (name, len(a), len(cases)),
                       {"kind": "correspondence", "obligation": name}, found_input=False)
         return None
-    minp = [model_input(c, l, tcp) or "0 ; ; ; ; " for c, l in zip(cases, a)]
+    # a case for which no socket pair could be made says nothing about libuv: once more, alone
+    for i, l in enumerate(a):
+        if l.startswith("nosocket"):
+            o, rc0, err0 = vf.run_lines(harness_cmd, [cases[i]], timeout=60)
+            if o and not o[0].startswith("nosocket"):
+                a[i] = o[0]
+    nos = sum(1 for l in a if l.startswith("nosocket"))
+    if nos:
+        chk.violation("%s: harness error: no socket pair for %d cases (environment)" % (name, nos),
+                      {"kind": "harness", "obligation": name}, found_input=False)
+        a = [("SKIP" if l.startswith("nosocket") else l) for l in a]
+    minp = [model_input(c, l, tcp) or "0 0 ; ; ; ; " for c, l in zip(cases, a)]
     b, rc2, err2 = vf.run_lines([model], minp, shards=12)
     if len(b) != len(cases):
         chk.violation("%s: model produced %d lines for %d cases %s" % (name, len(b), len(cases), (err2 or "")[-300:]),
@@ -383,7 +429,6 @@ def run_mode(chk, name, harness_cmd, model, cases, tcp=False):
                       {"kind": "correspondence", "obligation": name}, found_input=False)
         return None
     COQ_PARTS = ["C06_stream_exact", "C06_alloc_paired", "C06_silent_until_restart", "C06_no_null_read_cb"]
-    unlisted = chk.cov.setdefault("_unlisted", set())
     bad = []          # (has no failing input, what, replay)
     for c, al, bl, cv in zip(cases, a, b, cm):
         if al == "SKIP":
@@ -391,7 +436,7 @@ def run_mode(chk, name, harness_cmd, model, cases, tcp=False):
         impl_trace = al.split(";")[0]
         chk.count(name, c + "=>" + impl_trace)
         ipc = (not tcp) and c.split(";")[0].strip() == "1"
-        verdict = monitor(c, al, ipc)
+        verdict = monitor(c, al, ipc, tcp)
         if cv != "1111" and not (verdict and verdict[0] is None):
             # the Coq-defined checker rejects the trace (and the python monitor did not name it first)
             failed = [n for n, d in zip(COQ_PARTS, cv) if d == "0"] if len(cv) == 4 else [cv]
@@ -405,21 +450,8 @@ def run_mode(chk, name, harness_cmd, model, cases, tcp=False):
                         {"kind": "correspondence", "obligation": name, "case": c, "impl": al, "model": bl,
                          "model_input": model_input(c, al, tcp), "monitor": reason}))
         elif verdict:
-            key, reason = verdict
-            f = chk.match_known(key) if key else None
-            if f:
-                chk.known_hit(f)
-                chk.cov.setdefault("known_finding_cases", {}).setdefault(key, {"case": c, "impl": al})
-            elif key:
-                # a catalogued defect whose key is not (yet) in known_findings.json: once per key
-                if key not in unlisted:
-                    unlisted.add(key)
-                    chk.violation("%s: trace violates the property: %s [unlisted finding %s]" % (name, reason, key),
-                                  {"kind": "monitor", "obligation": name, "case": c, "impl": al, "key": key},
-                                  found_input=True)
-            else:
-                bad.append((False, "%s: trace violates the property: %s" % (name, reason),
-                            {"kind": "monitor", "obligation": name, "case": c, "impl": al, "key": key}))
+            bad.append((False, "%s: trace violates the property: %s" % (name, verdict[1]),
+                        {"kind": "monitor", "obligation": name, "case": c, "impl": al}))
     # report the shortest cases first, those with a failing input before the others
     bad.sort(key=lambda t: (t[0], len(t[2]["case"])))
     for nofail, what, rp in bad[:3]:
@@ -506,7 +538,6 @@ def main():
                        model, cases, tcp)
         if out:
             print("impl:  " + out[0])
-        chk.cov.pop("_unlisted", None)
         chk.finish(rule="replay of one recorded case")
 
     cpath = os.path.join(vf.VERIF, "corpus", "C06", "cases.txt")
@@ -526,10 +557,9 @@ def main():
         chk.cov["poll_masks_seen"] = sorted({e for t in tr for e in t if e[0] == "P"})
         chk.cov["shape_counts"] = shape_counts(tr)
     tgen = [gen_case(chk.rng, tcp=True) for _ in range(40000 if thorough else 1500)]
-    tfixed = [c for c in FIXED + corpus if c.split(";")[0].strip() == "0" and " g" not in c and " u" not in c]
+    tfixed = [c for c in FIXED + corpus if c.split(";")[0].strip() == "0" and " g" not in c] + TCP_FIXED
     run_mode(chk, N_TCP, [hs, "tcp"], model, tfixed + tgen, tcp=True)
 
-    chk.cov["unlisted_findings"] = sorted(chk.cov.pop("_unlisted", set()))
     chk.finish(
         level="proof",
         rule="random API scripts (uv_read_start/uv_read_stop/uv_close/uv_run(NOWAIT), at top level and from "
